@@ -1,6 +1,10 @@
 import AslModel.Model.Dis.Core
 import AslModel.Generated.Deco68
-/-! MODEL of deco68.c (`Disassemble_68`, `MakeSymbolic`, `RetrieveData`) over the generated `OpcodeList`.  Core only. -/
+/-! MODEL of deco68.c (`Disassemble_68`, `MakeSymbolic`, `RetrieveData`) over the generated `OpcodeList`.  Core only.
+
+`decode` is the `switch (pOpcode->Type)` for a known opcode on the bytes already fetched (structured result: mnemonic,
+operand prefix, printed operand, `,x` suffix, length, successor mask, operand address); `disassemble` is the whole callback
+(fetching through `RetrieveData`, which wraps at 64K, unknown opcodes and data lines). -/
 namespace AslModel.Dis.M6800
 open AslModel.Dis
 open AslModel.Generated
@@ -42,11 +46,73 @@ def makeSymbolic (lower : Bool) (syms : Syms) (a addrLen : Nat) (pfx : Option St
     | none => ("$" ++ h, syms)
     | some p => (p ++ h, syms.add (p ++ h) a)
 
+/-- the `while (Count > 0)` loop of `RetrieveData`: the request is cut at 0x10000 and continued at address 0
+(`Trans = 0x10000 - Address` in `LargeWord` arithmetic: above 0x10000 it is huge, so nothing is cut there) -/
+def retrieveDataF (img : Image) (lower : Bool) : Nat → Nat → Nat → Option (List Nat) × List String
+  | 0, _, _ => (some [], [])
+  | fuel + 1, a, count =>
+    if count = 0 then (some [], []) else
+    let trans := if a ≤ 0x10000 then min count (0x10000 - a) else count
+    match retrieve img a trans with
+    | none => (none, ["cannot retrieve instruction arg @ 0x" ++ hexString lower a 0])
+    | some bs =>
+      match retrieveDataF img lower fuel ((a + trans) % 0x10000) (count - trans) with
+      | (some rest, e) => (some (bs.map UInt8.toNat ++ rest), e)
+      | (none, e) => (none, e)
+
+/-- `RetrieveData(Address, buf, Count)`: at most one zero-length round (Address = 0x10000) and one wrap -/
 def retrieveData (img : Image) (lower : Bool) (a count : Nat) : Option (List Nat) × List String :=
-  if count = 0 then (some [], []) else
-  match retrieve img a count with
-  | some bs => (some (bs.map UInt8.toNat), [])
-  | none => (none, ["cannot retrieve instruction arg @ 0x" ++ hexString lower a 0])
+  retrieveDataF img lower (count + 2) a count
+
+/-- a decoded instruction -/
+structure Dec where
+  memo : List Char
+  /-- `#` for the immediate forms -/
+  pre : List Char
+  /-- the operand as `MakeSymbolic` rendered it; `none` for the implicit forms -/
+  atom : Option (List Char)
+  /-- `,x` follows -/
+  idx : Bool
+  len : Nat
+  next : Nat
+  opAddr : Nat
+  remark : Option String
+deriving Repr
+
+/-- `SrcLine` -/
+def Dec.text (d : Dec) : List Char :=
+  match d.atom with
+  | none => d.memo
+  | some t => d.memo ++ '\t' :: (d.pre ++ t ++ (if d.idx then [',', 'x'] else []))
+
+/-- the cases of `switch (pOpcode->Type)` other than `default`, on the operand bytes `data` (exactly `operandBytes` many) -/
+def decode (lower : Bool) (syms : Syms) (a op : Nat) (data : List Nat) : Option (Dec × Syms) :=
+  let r := row op
+  if data.length ≠ operandBytes r then none else
+  let oa := opAddr r a data
+  let len := instrLen r
+  let memo := String.ofList r.memo
+  match r.typ with
+  | .eUnknown => none
+  | .eImplicit => some (⟨r.memo, [], none, false, len, r.next, oa, none⟩, syms)
+  | .eDirect =>
+    let t := makeSymbolic lower syms oa 1 none
+    some (⟨r.memo, [], some t.1.toList, false, len, r.next, oa, none⟩, t.2)
+  | .eIndexed =>
+    let t := makeSymbolic lower syms oa 1 none
+    let rm := if r.next = 0 then some "indirect jump, investigate here"
+      else if r.next = 1 ∧ memo = "jsr" then some "indirect subroutine call, investigate here" else none
+    some (⟨r.memo, [], some t.1.toList, true, len, r.next, oa, rm⟩, t.2)
+  | .eExtended =>
+    let pfx := if r.next / 2 % 2 = 1 then some (if memo = "jsr" then "sub_" else "lab_") else none
+    let t := makeSymbolic lower syms oa 2 pfx
+    some (⟨r.memo, [], some t.1.toList, false, len, r.next, oa, none⟩, t.2)
+  | .eImmediate =>
+    let t := makeSymbolic lower syms oa (r.opSize + 1) none
+    some (⟨r.memo, ['#'], some t.1.toList, false, len, r.next, oa, none⟩, t.2)
+  | .eRelative =>
+    let t := makeSymbolic lower syms oa 2 (some (if memo = "bsr" then "sub_" else "lab_"))
+    some (⟨r.memo, [], some t.1.toList, false, len, r.next, oa, none⟩, t.2)
 
 /-- `Disassemble_68` -/
 def disassemble : Disasm := fun img lower syms a asData dataSize =>
@@ -55,7 +121,6 @@ def disassemble : Disasm := fun img lower syms a asData dataSize =>
   | (some ops, _) =>
     let op := ops.getD 0 0
     let r := if asData then Deco68.dummyOpcode else row op
-    let memo := String.ofList r.memo
     if r.typ = .eUnknown then
       let ds : Int := if dataSize < 0 then 1 else dataSize
       let want := (ds - 1).toNat
@@ -76,30 +141,9 @@ def disassemble : Disasm := fun img lower syms a asData dataSize =>
       match retrieveData img lower (a + 1) (operandBytes r) with
       | (none, e) => ({}, syms, e)
       | (some data, _) =>
-        let oa := opAddr r a data
-        let len := instrLen r
-        let (src, syms', remark) : String × Syms × Option String :=
-          match r.typ with
-          | .eImplicit => (memo, syms, none)
-          | .eDirect =>
-            let (t, s') := makeSymbolic lower syms oa 1 none
-            (memo ++ "\t" ++ t, s', none)
-          | .eIndexed =>
-            let (t, s') := makeSymbolic lower syms oa 1 none
-            let rm := if r.next = 0 then some "indirect jump, investigate here"
-              else if r.next = 1 ∧ memo = "jsr" then some "indirect subroutine call, investigate here" else none
-            (memo ++ "\t" ++ t ++ ",x", s', rm)
-          | .eExtended =>
-            let pfx := if r.next / 2 % 2 = 1 then some (if memo = "jsr" then "sub_" else "lab_") else none
-            let (t, s') := makeSymbolic lower syms oa 2 pfx
-            (memo ++ "\t" ++ t, s', none)
-          | .eImmediate =>
-            let (t, s') := makeSymbolic lower syms oa (r.opSize + 1) none
-            (memo ++ "\t#" ++ t, s', none)
-          | .eRelative =>
-            let (t, s') := makeSymbolic lower syms oa 2 (some (if memo = "bsr" then "sub_" else "lab_"))
-            (memo ++ "\t" ++ t, s', none)
-          | .eUnknown => ("", syms, none)
-        ({ len := len, nexts := nexts r.next oa a len, src := src, remark := remark }, syms', [])
+        match decode lower syms a op data with
+        | none => ({}, syms, [])
+        | some (dec, syms') =>
+          ({ len := dec.len, nexts := nexts dec.next dec.opAddr a dec.len, src := String.ofList dec.text, remark := dec.remark }, syms', [])
 
 end AslModel.Dis.M6800
